@@ -591,6 +591,44 @@ def part_deep(ctx):
             ctx.count('deep_expressions_ok')
 
 
+def part_big_literals(ctx):
+    """integer literals beyond 2**53: a literal denotes its number exactly
+    (the same number computed at run time is exact, so must the literal be)"""
+    rng = ctx.rng('biglit', ctx.shard)
+    for _ in range(40 if ctx.tier == 'quick' else 1500):
+        a = 2 ** rng.randint(53, 90) + rng.randint(1, 10 ** 6) * 2 + 1
+        b = a - rng.randint(1, 9)
+        shape = rng.randrange(6)
+        if shape == 0:
+            text, want = 'print {{ {} - {} }}'.format(a, b), [a - b]
+        elif shape == 1:
+            text, want = 'print {{ {} % 10 }} print {{ {} % 7 }}'.format(a, b), \
+                [a % 10, b % 7]
+        elif shape == 2:
+            text, want = 'print {{ {} == {} }} print {{ {} > {} }}'.format(
+                a, b, a, b), [False, True]
+        elif shape == 3:
+            text, want = ('define BIG {} assign v {} print {{ BIG - v }} '
+                          'print BIG'.format(a, b)), [a - b, a]
+        elif shape == 4:
+            text, want = ('define f with x begin return {{ x - {} }} end '
+                          'print [ f {} ]'.format(b, a)), [a - b]
+        else:
+            text, want = ('assign v {{ {} + 1 }} if {{ v == {} }} print 1 else '
+                          'print 0 print {{ {} * 3 - {} * 3 }}'.format(
+                              a - 1, a, a, b)), [1, 3 * (a - b)]
+        r = run_script(text)
+        ctx.case('B:' + text)
+        got = outputs(r)
+        if not r.accepted or r.stops or got != want:
+            ctx.violation('literal:beyond-2^53',
+                          'printed {} expected {} {} | {}'.format(
+                              got, want, r.errors.strip()[:80], text[:200]),
+                          {'part': 'big-literals', 'script': text})
+        else:
+            ctx.count('big_literals_exact')
+
+
 def run_shard(ctx):
     env.configure(simnet.make_devices([
         dict(label='A', group='G', location='P'),
@@ -598,6 +636,7 @@ def run_shard(ctx):
         dict(label='C', group='G', location='P')]))
     if ctx.shard == 0:
         part_deep(ctx)
+    part_big_literals(ctx)
     part_expr(ctx)
     part_builtins(ctx)
     part_random(ctx)
@@ -617,7 +656,7 @@ def finalize(merged):
         merged['inconclusive'].append(
             'only {} adjacent operator pairs observed'.format(len(pairs)))
     for need in ('position:count', 'position:bound', 'position:while',
-                 'builtin:cycle', 'random_draws'):
+                 'builtin:cycle', 'random_draws', 'big_literals_exact'):
         if not c.get(need):
             merged['inconclusive'].append('never observed: ' + need)
 
